@@ -820,3 +820,165 @@ fn c20_clones_interleaved() {
     core::mem::forget(a);
     core::mem::forget(bh);
 }
+
+// =============================================================================================
+// C07: extract() hands only confined paths to the file system (fs calls are environment stubs)
+// =============================================================================================
+pub(crate) mod fsenv {
+    //! File-system environment for the extract() harness: every stub records its call and
+    //! asserts that the path it is handed stays lexically inside the extraction root.
+    use std::io;
+    use std::path::Path;
+    pub const ROOT: &[u8] = b"/r";
+    pub static mut DIR_CALLS: u8 = 0;
+    pub static mut FILE_CALLS: u8 = 0;
+    pub static mut PERM_CALLS: u8 = 0;
+    pub static mut LAST: [u8; 8] = [0; 8];
+    pub static mut LAST_LEN: usize = 0;
+
+    /// lexical confinement: `p` = ROOT, or ROOT + '/' + a relative remainder that never climbs
+    /// above ROOT and has no NUL
+    pub fn inside(p: &[u8]) -> bool {
+        if p.len() < 2 || p[0] != ROOT[0] || p[1] != ROOT[1] {
+            return false;
+        }
+        if p.len() == 2 {
+            return true;
+        }
+        if p[2] != b'/' {
+            return false;
+        }
+        let mut depth: i32 = 0;
+        let mut start = 3;
+        let mut i = 3;
+        while i <= p.len() {
+            if i == p.len() || p[i] == b'/' {
+                let len = i - start;
+                if len == 2 && p[start] == b'.' && p[start + 1] == b'.' {
+                    depth -= 1;
+                    if depth < 0 {
+                        return false;
+                    }
+                } else if len > 0 && !(len == 1 && p[start] == b'.') {
+                    depth += 1;
+                }
+                start = i + 1;
+            } else if p[i] == 0 {
+                return false;
+            }
+            i += 1;
+        }
+        true
+    }
+    fn note(p: &Path) {
+        let b = p.as_os_str().as_encoded_bytes();
+        assert!(inside(b), "extract() handed the file system a path outside the target directory");
+        unsafe {
+            let mut i = 0;
+            while i < b.len() && i < 8 {
+                LAST[i] = b[i];
+                i += 1;
+            }
+            LAST_LEN = b.len();
+        }
+    }
+    pub fn create_dir_all<P: AsRef<Path>>(path: P) -> io::Result<()> {
+        note(path.as_ref());
+        unsafe { DIR_CALLS += 1 };
+        Ok(())
+    }
+    /// a real `File` cannot be fabricated (its Drop closes a descriptor through FFI): creation
+    /// is recorded, checked, and then fails - extract() stops at its first file
+    pub fn file_create<P: AsRef<Path>>(path: P) -> io::Result<std::fs::File> {
+        note(path.as_ref());
+        unsafe { FILE_CALLS += 1 };
+        Err(io::Error::from(io::ErrorKind::Other))
+    }
+    pub fn set_permissions<P: AsRef<Path>>(path: P, _perm: std::fs::Permissions) -> io::Result<()> {
+        note(path.as_ref());
+        unsafe { PERM_CALLS += 1 };
+        Ok(())
+    }
+    pub fn exists(p: &Path) -> bool {
+        let b = p.as_os_str().as_encoded_bytes();
+        assert!(inside(b), "extract() probed a path outside the target directory");
+        kani::any()
+    }
+}
+
+macro_rules! c07_extract {
+    ($name:ident, $l:expr, $unwind:expr) => {
+        #[kani::proof]
+        #[kani::unwind($unwind)]
+        #[kani::stub(crc32fast::Hasher::internal_new_specialized, crate::verif_kit::stub_crc_specialized)]
+        #[kani::stub(std::hash::RandomState::new, crate::verif_kit::stub_random_state)]
+        #[kani::stub(std::fs::create_dir_all, fsenv::create_dir_all)]
+        #[kani::stub(std::fs::File::create, fsenv::file_create)]
+        #[kani::stub(std::fs::set_permissions, fsenv::set_permissions)]
+        #[kani::stub(std::path::Path::exists, fsenv::exists)]
+        fn $name() {
+            const L: usize = $l;
+            const N: usize = 48;
+            let sel: [u8; L] = kani::any();
+            let mut n = [0u8; L];
+            let mut i = 0;
+            while i < L {
+                kani::assume(sel[i] < 5);
+                n[i] = crate::types::verif_h::path_byte(sel[i]);
+                i += 1;
+            }
+            let s = unsafe { String::from_utf8_unchecked(n.to_vec()) };
+            let mut data = crate::types::verif_h::zfd_named(s);
+            data.external_attributes = kani::any();
+            data.compressed_size = 0;
+            data.uncompressed_size = 0;
+            data.header_start = 0;
+            // concrete well-formed local header at offset 0 (name length L, no extra, no data)
+            let mut b = [0u8; N];
+            let v = EntryVals { made_by: 0x031e, needed: 20, flags: 0, method: 0, time: 0, date: 0x21, crc: 0, csize: 0, usize_: 0, disk: 0, iattr: 0, eattr: 0, offset: 0 };
+            put_local(&mut b, 0, &v, 0, 0, 0, &n, &[]);
+            let mut ar = archive_of(data, Src::<N>::new(b, N));
+            let r = ar.extract("/r");
+            let safe = crate::types::verif_h::ref_enclosed(&n);
+            let (dirs, files, perms, last, last_len) = unsafe { (fsenv::DIR_CALLS, fsenv::FILE_CALLS, fsenv::PERM_CALLS, fsenv::LAST, fsenv::LAST_LEN) };
+            if !safe {
+                // unsafe name: an error, and the file system was never touched
+                assert!(r.is_err(), "extract() accepted an unsafe entry name");
+                assert!(dirs == 0 && files == 0 && perms == 0, "file system touched for an unsafe entry name");
+            } else if n[L - 1] == b'/' {
+                // directory entry: created (with parents) at root/name, never as a file
+                assert!(files == 0);
+                assert!(dirs >= 1);
+            } else {
+                // file entry: created at exactly root/name (then the environment refuses it)
+                assert_eq!(files, 1, "a file entry was not created as a file");
+                assert!(r.is_err());
+                assert_eq!(last_len, 3 + L);
+                assert!(last[0] == b'/' && last[1] == b'r' && last[2] == b'/');
+                let mut i = 0;
+                while i < L {
+                    assert_eq!(last[3 + i], n[i]);
+                    i += 1;
+                }
+            }
+            kani::cover!(!safe);
+            kani::cover!(safe && n[L - 1] == b'/');
+            kani::cover!(safe && n[L - 1] == b'\\');
+            core::mem::forget(r);
+            core::mem::forget(ar);
+        }
+    };
+}
+/// C07 ZipArchive::extract on a one-entry archive state (constructed as ZipArchive::new leaves
+/// it; empty stored entry, symbolic external attributes) for EVERY entry name of length 2 over
+/// the path-relevant byte classes {a . / \ NUL}, with the file system replaced by environment
+/// stubs (create_dir_all, File::create, set_permissions, Path::exists) that assert that every
+/// path they are handed stays lexically inside the target directory: an unsafe name yields Err
+/// before any file-system call; a safe name ending in '/' is created as a directory and never
+/// as a file; any other safe name is created as a FILE at exactly target/name (a trailing
+/// backslash does not make a directory).
+// @h prop=C07,C06 tier=dev t=1200 mem=26 name=c07_extract_len2 uws="fn:^std::ptr::drop_glue::<std::io::Error>$:2"
+c07_extract!(c07_extract_len2, 2, 6);
+/// C07 as above for every entry name of length 1.
+// @h prop=C07,C06 tier=dev t=600 mem=12 name=c07_extract_len1 uws="fn:^std::ptr::drop_glue::<std::io::Error>$:2"
+c07_extract!(c07_extract_len1, 1, 5);
